@@ -130,6 +130,15 @@ var c09Programs = []c09Program{
 	{"bytes", `b := byte(65); bs := byte_slice([1, 2, 3]); int(b) + int(bs[1]) + len(string(bs)) + n`,
 		func(a int) map[string]any { return map[string]any{"n": a} },
 		func(a int) string { return c09Itoa(65 + 2 + 3 + a) }},
+	// a host function of one evaluation adds to the codec registry while others use it
+	{"host-function-registers-a-codec", `regcodec(); n + 1`,
+		func(a int) map[string]any {
+			return map[string]any{"n": a, "regcodec": object.NewBuiltin("regcodec", func(ctx context.Context, args ...object.Object) object.Object {
+				_ = builtins.RegisterCodec("verif-codec", &builtins.Codec{})
+				return object.Nil
+			})}
+		},
+		func(a int) string { return c09Itoa(a + 1) }},
 	{"plain", `l := [n, 2, 3].map(func(x) { return x * 2 }); l[0] + l[2] + len(sorted(l))`,
 		func(a int) map[string]any { return map[string]any{"n": a} },
 		func(a int) string { return c09Itoa(2*a + 6 + 3) }},
